@@ -7,13 +7,21 @@
    * SubStorage translation keeps an in-bounds relative write inside [base, base+size);
    * a FAT cluster number within the data-cluster count, and an ext4/iso/squashfs block number
      below the block count, map to byte ranges inside the volume.
-  What is NOT a theorem (partial): that the FAT allocator, the ext4 allocator and the
-  iso9660/squashfs layout code only ever produce such cluster / block numbers. That premise is
-  monitored on the real code by the `ranges` engine (every WriteAt range-checked, guard bytes
-  compared) for all six filesystems; the FAT premise is proved in Props/C08 where available.
+   * FAT clause (second half of this file): in the write-logging model of a FAT volume
+     (Model/Fat/Emit.lean: boot sector(s), both FAT copies, FSInfo and its backup, the fixed root
+     region, directory clusters, file data through `File.Write`) every WriteAt of `Create` and of
+     every operation of every history on the root directory of a FAT12/16 volume, accepted or
+     refused, lies inside [start, start+size) — for every size `Create` accepts, every start and
+     every prior device content; for FAT32 the writes of `Create`.
+  What is NOT a theorem (partial): that the ext4 allocator and the iso9660/squashfs layout code
+  only ever produce in-range block numbers, and FAT operations inside cluster-chain directories
+  (subdirectories, the FAT32 root). Those are monitored on the real code by the `ranges` engine
+  (every WriteAt range-checked, guard bytes compared) for all six filesystems.
 -/
 import DiskfsModel.Model.Ranges
 import DiskfsModel.Proofs.PartIO
+import DiskfsModel.Proofs.FatRange
+import DiskfsModel.Generated.Fat
 namespace Diskfs.Ranges.C03
 
 /-- frame, stated for a half-open range -/
@@ -145,5 +153,155 @@ example : 2 * (gptArrayBytes / 512) + 3 ≤ 204800 / 512 ∧ gptArrayBytes / 512
 example : gptArrayBytes / 4096 * 4096 = gptArrayBytes := by decide
 example : gptRegions 512 (100 * 512) true =
     [⟨(99 - 32) * 512, 16384⟩, ⟨99 * 512, 512⟩, ⟨1024, 16384⟩, ⟨512, 512⟩, ⟨446, 66⟩] := by decide
+
+end Diskfs.Ranges.C03
+
+/-! ## FAT clause: every WriteAt of the modelled FAT operations lies inside the range -/
+namespace Diskfs.Ranges.C03
+open Diskfs.Fat
+
+/-- the allocator bound: the scan of `allocateSpace` stops at min(MaxCluster(), dataClusterLimit()),
+    which never exceeds (size − dataStart) / bytesPerCluster + 2, so every cluster number it can
+    hand out maps inside the volume (this is the premise `fat_cluster_inside` takes as given) -/
+theorem fat_alloc_bound (L : Layout) (h : L.WF) (c : Nat) (h2 : 2 ≤ c) (hc : c < L.lim) :
+    L.start ≤ clusterOff L.io c ∧ clusterOff L.io c + L.bpc ≤ L.start + L.size :=
+  L.cluster_in_range h c h2 hc
+
+/-- **fat_writes_in_range** — one operation (create, write at any offset incl. past EOF, truncating
+    open, remove, rename with replacement) on the root directory of a volume with layout `L`:
+    every WriteAt it issues — FAT copies (+ FSInfo), root directory region, zero-fill and payload
+    through the file's cluster chain — lies inside [start, start+size), whether the operation is
+    accepted or refused (ENOSPC, no such file).  Zero-length WriteAt calls (the Go loop issues them
+    for the clusters behind the payload) carry no byte. -/
+theorem fat_writes_in_range (eqn : Spec.Name → Spec.Name → Bool) (L : Layout) (fuel : Nat) (s : FState) (op : FOp)
+    (hL : L.WF) (he : EqnOk eqn) (hlim : LimOk L.kind L.lim) (hfuel : L.lim - 2 ≤ fuel)
+    (h : FInv eqn L.fgeom s) :
+    ∀ w ∈ (fstepW eqn L fuel s op).ws,
+      w.data.length = 0 ∨ (L.start ≤ w.off ∧ w.off + w.data.length ≤ L.start + L.size) :=
+  fstepW_in_range eqn L fuel s op hL he hlim hfuel h
+
+/-- the logging model is the refinement-proved model of C01 plus a log: same state, same verdict -/
+theorem fat_log_is_fstep (eqn : Spec.Name → Spec.Name → Bool) (L : Layout) (fuel : Nat) (s : FState) (op : FOp) :
+    ((fstepW eqn L fuel s op).s, (fstepW eqn L fuel s op).ok) = fstep eqn L.fgeom fuel s op :=
+  fstepW_eq eqn L fuel s op
+
+/-- **fat_history_in_range** — by induction over the call sequence: after every history the
+    invariant still holds and the whole write log lies inside the range; hence no byte outside
+    [start, start+size) differs from what the device held before. -/
+theorem fat_history_in_range (eqn : Spec.Name → Spec.Name → Bool) (L : Layout) (fuel : Nat) (ops : List FOp)
+    (s : FState) (hL : L.WF) (he : EqnOk eqn) (hlim : LimOk L.kind L.lim) (hfuel : L.lim - 2 ≤ fuel)
+    (h : FInv eqn L.fgeom s) (d : Dev) (i : Nat) (hi : i < L.start ∨ L.start + L.size ≤ i) :
+    (∀ w ∈ (frunW eqn L fuel s ops).2, w.data.length = 0 ∨ L.InRange w) ∧
+    applyWrs d (frunW eqn L fuel s ops).2 i = d i := by
+  have hall := (frunW_in_range eqn L fuel ops s hL he hlim hfuel h).2
+  refine ⟨hall, ?_⟩
+  apply applyWrs_frame
+  intro w hw
+  rcases hall w hw with h0 | hr
+  · omega
+  · unfold Layout.InRange at hr; omega
+
+/-- a freshly created volume: empty table, empty directory -/
+theorem fat_fresh_inv (eqn : Spec.Name → Spec.Name → Bool) (g : FGeom) (d : Dev) :
+    FInv eqn g ⟨fun _ => 0, d, []⟩ := by
+  refine ⟨⟨?_, ?_, ?_⟩, ?_, ?_⟩
+  · intro l hl; simp at hl
+  · simp
+  · intro c _ _; simp
+  · intro f hf; simp at hf
+  · exact List.Pairwise.nil
+
+/-- **FAT12, end to end**: for EVERY size `fat12.Create` accepts (mirrored arithmetic over the
+    regenerated cluster-size table), every start offset, every name comparison that is an
+    equivalence and every call history on the root directory, the writes of `Create` followed by
+    the writes of the history all lie inside [start, start+size). -/
+theorem fat12_all_writes_in_range (size start : Nat) (g : Geom)
+    (hg : mkGeom12 Generated.Fat.fat12_spc_table size = some g)
+    (eqn : Spec.Name → Spec.Name → Bool) (he : EqnOk eqn) (ops : List FOp) (d : Dev) :
+    let L := Layout.ofGeom g start size
+    L.WF ∧ L.lim = g.clusters + 2 ∧
+    ∀ w ∈ L.createWrites ++ (frunW eqn L (L.lim - 2) ⟨fun _ => 0, d, []⟩ ops).2,
+      w.data.length = 0 ∨ L.InRange w := by
+  intro L
+  obtain ⟨hwf, _, hcl⟩ := mkGeom12_wf size g hg
+  obtain ⟨hk, hres, hbps⟩ := mkGeom12_fields _ size g hg
+  have hs := spc_pos_of_clusters hwf.has_cluster
+  have hL : L.WF := Layout.ofGeom_wf g start size hwf
+    (by unfold Geom.ReservedOk; rw [hk]; simp only; omega) hs (by omega)
+  have hle : L.lim ≤ g.clusters + 2 := Layout.ofGeom_lim_le g start size hwf hs (by omega) hL
+  have hge : g.clusters + 2 ≤ L.lim :=
+    Layout.ofGeom_lim_ge g start size hwf hL (by rw [Layout.ofGeom_max]; exact hwf.fat_holds)
+  have hlim : LimOk L.kind L.lim := by
+    show LimOk g.kind _
+    rw [hk]; exact limOk12 (by omega)
+  refine ⟨hL, by omega, ?_⟩
+  intro w hw
+  rcases List.mem_append.1 hw with hw | hw
+  · exact Or.inr (L.createWrites_in_range hL (Or.inr (by have := hwf.has_cluster; omega)) w hw)
+  · exact (frunW_in_range eqn L _ ops _ hL he hlim (Nat.le_refl _) (fat_fresh_inv eqn _ d)).2 w hw
+
+/-- **FAT16, end to end** (same statement) -/
+theorem fat16_all_writes_in_range (size start : Nat) (g : Geom)
+    (hg : mkGeom16 Generated.Fat.fat16_spc_table size = some g)
+    (eqn : Spec.Name → Spec.Name → Bool) (he : EqnOk eqn) (ops : List FOp) (d : Dev) :
+    let L := Layout.ofGeom g start size
+    L.WF ∧ L.lim = g.clusters + 2 ∧
+    ∀ w ∈ L.createWrites ++ (frunW eqn L (L.lim - 2) ⟨fun _ => 0, d, []⟩ ops).2,
+      w.data.length = 0 ∨ L.InRange w := by
+  intro L
+  obtain ⟨hwf, _, _, hcl⟩ := mkGeom16_wf size g hg
+  obtain ⟨hk, hres, hbps⟩ := mkGeom16_fields _ size g hg
+  have hs := spc_pos_of_clusters hwf.has_cluster
+  have hL : L.WF := Layout.ofGeom_wf g start size hwf
+    (by unfold Geom.ReservedOk; rw [hk]; simp only; omega) hs (by omega)
+  have hle : L.lim ≤ g.clusters + 2 := Layout.ofGeom_lim_le g start size hwf hs (by omega) hL
+  have hge : g.clusters + 2 ≤ L.lim :=
+    Layout.ofGeom_lim_ge g start size hwf hL (by rw [Layout.ofGeom_max]; exact hwf.fat_holds)
+  have hlim : LimOk L.kind L.lim := by
+    show LimOk g.kind _
+    rw [hk]; exact limOk16 (by omega)
+  refine ⟨hL, by omega, ?_⟩
+  intro w hw
+  rcases List.mem_append.1 hw with hw | hw
+  · exact Or.inr (L.createWrites_in_range hL (Or.inr (by have := hwf.has_cluster; omega)) w hw)
+  · exact (frunW_in_range eqn L _ ops _ hL he hlim (Nat.le_refl _) (fat_fresh_inv eqn _ d)).2 w hw
+
+/-- **FAT32 `Create`** (repaired sectors-per-FAT formula, the one in the tree): boot sector and its
+    backup at sector 6, both FAT copies, FSInfo at sector 1 and its backup at sector 7, the zeroed
+    root cluster and the root directory with the label all lie inside the range; the scan limit is
+    data clusters + 2 and cluster numbers below it are not end-of-chain values. -/
+theorem fat32_create_in_range (size bs start : Nat) (g : Geom) (hmax : size ≤ 274940771839 ∨ bs = 4096)
+    (hg : mkGeom32Fixed Generated.Fat.fat32_clusterBytes_table size bs = some g) :
+    let L := Layout.ofGeom g start size
+    L.WF ∧ L.lim = g.clusters + 2 ∧ LimOk L.kind L.lim ∧ ∀ w ∈ L.createWrites, L.InRange w := by
+  intro L
+  obtain ⟨hwf, _⟩ := mkGeom32Fixed_wf size bs g hmax hg
+  obtain ⟨hk, hres, hbps, hspf, _⟩ := mkGeom32Fixed_fields _ size bs g hg
+  have hs := spc_pos_of_clusters hwf.has_cluster
+  have hL : L.WF := Layout.ofGeom_wf g start size hwf
+    (by unfold Geom.ReservedOk; rw [hk]; simp only; omega) hs (by omega)
+  have hle : L.lim ≤ g.clusters + 2 := Layout.ofGeom_lim_le g start size hwf hs (by omega) hL
+  have hge : g.clusters + 2 ≤ L.lim :=
+    Layout.ofGeom_lim_ge g start size hwf hL (by rw [Layout.ofGeom_max]; exact hwf.fat_holds)
+  have hlimmax : L.lim ≤ 67108864 := by
+    have h1 : L.lim ≤ L.max := L.lim_le_max
+    have h2 : L.max = g.fatEntries := Layout.ofGeom_max g start size
+    have h3 : g.fatEntries ≤ 67108864 := by
+      unfold Geom.fatEntries; rw [hk]; simp only
+      have : g.fatSectors * g.bps ≤ 65535 * 4096 := Nat.mul_le_mul (by omega) (by omega)
+      omega
+    omega
+  refine ⟨hL, by omega, ?_, L.createWrites_in_range hL (Or.inr (by have := hwf.has_cluster; omega))⟩
+  show LimOk g.kind _
+  rw [hk]; exact limOk32 hlimmax
+
+/-! non-vacuity: a 1.44 MB FAT12 floppy at start 512 and a small FAT32 volume -/
+example : (mkGeom12 Generated.Fat.fat12_spc_table 1474560).isSome = true := by decide
+example : mkGeom32Fixed Generated.Fat.fat32_clusterBytes_table 82432 512 ≠ none := by
+  intro h; have := mkGeom32Fixed_values; rw [h] at this; cases this
+set_option maxRecDepth 4000 in
+example : (fstepW (fun a b => a == b) (Layout.ofGeom ⟨.f12, 512, 1, 1, 1, 16, 40⟩ 512 20480) 100
+    ⟨fun _ => 0, fun _ => 0, []⟩ (.create [65])).ws.map (fun w => (w.off, w.data.length))
+    = [(1024, 512), (1536, 512), (2048, 512)] := by decide
 
 end Diskfs.Ranges.C03
